@@ -99,6 +99,11 @@ func runOne(s script, profile string, seed uint64, w *traceWriter) bool {
 						r.status += ":in-" + where
 					}
 					w.line("K", strconv.Itoa(s.idx), strings.ReplaceAll(block+"\n----\n"+firstLines(e.stack, 40), "\n", " | "))
+				case setupRefused:
+					r.status = "setup-refused"
+					r.srv = nil
+					r.viol("C11", "store:fresh-session-refused", "after a conformant key exchange the session (key, salt, address) "+
+						"is not written to the session store, 21 times out of 21: "+e.msg)
 				case harnessTrouble:
 					w.line("E", strconv.Itoa(s.idx), "harness:"+e.msg)
 					fmt.Fprintln(os.Stderr, "HARNESS-TROUBLE:", e.msg)
@@ -507,14 +512,21 @@ func worker(profile, mode, arg string, from int, outPath string) {
 	w := &traceWriter{f: f}
 	seed := vc.Seed()
 	ss := schedules(profile, mode, arg, seed)
+	// the session files stay where they were (baseTmp); what the library itself puts into "the temp directory"
+	// lands on another file system
+	_, restoreTmp := vc.ForeignTmp(baseTmp)
+	defer restoreTmp()
 	for i := from; i < len(ss) && i < from+batch; i++ {
 		if !runOne(ss[i], profile, seed, w) {
 			break // a fresh process for the next schedule
 		}
 	}
 	f.Close()
-	os.RemoveAll(filepath.Join(os.TempDir(), fmt.Sprintf("verif-c11-%d", os.Getpid())))
+	os.RemoveAll(filepath.Join(baseTmp, fmt.Sprintf("verif-c11-%d", os.Getpid())))
 }
+
+// the temp directory as the process found it
+var baseTmp = os.TempDir()
 
 func supervise(profile, mode, arg, outPath string) {
 	os.Remove(outPath)
@@ -527,7 +539,8 @@ func supervise(profile, mode, arg, outPath string) {
 		cmd.Stdout = os.Stdout
 		err := cmd.Run()
 		if cmd.Process != nil {
-			os.RemoveAll(filepath.Join(os.TempDir(), fmt.Sprintf("verif-c11-%d", cmd.Process.Pid)))
+			os.RemoveAll(filepath.Join(baseTmp, fmt.Sprintf("verif-c11-%d", cmd.Process.Pid)))
+			vc.RemoveForeignTmp(cmd.Process.Pid)
 		}
 		lastB, lastE := -1, -1
 		lastP := ""
